@@ -135,6 +135,22 @@ class LoopProgress(object):
                     out.append(Pos(None, True, False, 'y', None))                       # not found
                     out.append(Pos(p.lo, False, True, 'n', cs))                          # found at >= pos
                 return out
+            if name.startswith('std::') and last == 'min' and len(d.get('args') or []) == 2:
+                # min(find result, size): the smaller of two positions (npos is the largest value there is)
+                out = []
+                for pa in self.eval(d['args'][0], st):
+                    for pb in self.eval(d['args'][1], st):
+                        if pa.npos == 'y':
+                            out.append(pb)
+                        elif pb.npos == 'y':
+                            out.append(pa)
+                        elif pa.npos == 'n' and pb.npos == 'n' and pa.lo is not None and pb.lo is not None:
+                            exact = pa if (pa[2] and pb.ge) else pb if (pb[2] and pa.ge) else None
+                            out.append(exact if exact is not None else
+                                       Pos(min(pa.lo, pb.lo), pa.ge and pb.ge, bool(pa[2] or pb[2]), 'n', None))
+                        else:
+                            out.append(UNKNOWN)
+                return out
             if last in ('memchr', 'strpbrk', 'strchr', 'strstr') and d.get('args'):
                 args = d['args']
                 cs = None
